@@ -314,6 +314,25 @@ static std::vector<std::string> hist_gen(const GenArgs &ga) {
     }
   }
 
+  // ---- C09: a member that needs more regions at once than any fixed-size table would hold -----------
+  if (P == "C09" && sw.chance(1, 60)) {
+    for (auto &l : pl) {
+      if (starts(l, "env ")) l = "env ORC_CODE=- ORC_DEBUG=- ORC_BACKEND=-";
+      if (starts(l, "dirs ")) l = "dirs xdg=unset home=unset tmpdir=unset tmp=ok execmem=1";
+      if (starts(l, "cfg ")) l = "cfg poison=0 sink=0 cycles=1 oracles=layout,bytes,reuse,growth refchild=0";
+      if (starts(l, "init")) l = "init";
+    }
+    int live = 258 + (int)pr.below(80);
+    for (int i = 0; i < live; i++) pl.push_back(strf("op rawalloc size=65536 fill=%d", i + 1));
+    for (int i = 0; i < 40; i++) {
+      // with everything full: requests that need yet another region, and their release
+      pl.push_back(strf("op rawalloc size=%d fill=%d", pr.chance(1, 2) ? 65536 : 30000, 1000 + i));
+      if (pr.chance(2, 3)) pl.push_back("op freec c=newest");
+    }
+    pl.push_back("op freeall");
+    return pl;
+  }
+
   // ---- operations -----------------------------------------------------------
   int subj_seen = 0;
   for (int i = 0; i < nops; i++) {
@@ -576,6 +595,7 @@ struct State {
   bool faults_in_plan = false;
   bool debug_mode = false;
   bool jit_forced_off = false;  // init probe failed
+  int unaccounted_maps_after_init = -1;   // simulated mappings that belong to no region of the table (the init probe)
   std::string orc_code;
   int fd_count_start = 0;
 };
@@ -670,6 +690,14 @@ static void record_fn(State &st, Func &fn, OrcCode *code) {
   }
 }
 
+static int unaccounted_mappings(const Layout &l) {
+  std::set<uintptr_t> owned;
+  for (auto &r : l.regions) { owned.insert((uintptr_t)r.write_ptr); owned.insert((uintptr_t)r.exec_ptr); }
+  int un = 0;
+  for (uintptr_t a : fs::live_mapping_addrs()) if (!owned.count(a)) un++;
+  return un;
+}
+
 // All structural checks that hold after every operation.
 static void check_after_op(State &st, const Layout *before, bool was_alloc_op, const Func *newfn) {
   Child &c = *st.c;
@@ -762,6 +790,13 @@ static void check_after_op(State &st, const Layout *before, bool was_alloc_op, c
   }
   // A descriptor may legitimately be kept for as long as a mapping made from it lives (bounded by the number
   // of regions); one that is open with no mapping left is leaked -- every failed attempt would add another.
+  if (st.O("growth") && fs::enabled() && st.unaccounted_maps_after_init >= 0) {
+    // mappings obtained from the OS that are not a region of the table any more (or never became one): a small
+    // constant is the init probe or a spare; one more after every refused or abandoned attempt is a leak
+    int un = unaccounted_mappings(l);
+    if (un > st.unaccounted_maps_after_init + 6)
+      c.violation("growth", "mappings-outside-the-region-table", strf("%d mappings obtained from the OS belong to no code region (%d after orc_init); %zu regions", un, st.unaccounted_maps_after_init, l.regions.size()));
+  }
   if (st.O("fd") && fs::enabled() && fs::double_munmaps() != 0)
     c.violation("crash", "munmap-of-range-already-unmapped", strf("the library unmapped %d address range(s) it had already unmapped: in a process with other threads that destroys whatever was mapped there in between", fs::double_munmaps()));
   if (st.O("fd") && fs::enabled() && fs::open_unmapped_fds() != 0)
@@ -1066,6 +1101,7 @@ static void hist_run(const std::vector<std::string> &plan, Child &c) {
   if (st.O("fd") && fs::open_unmapped_fds() != 0)
     c.violation("fd-leak", "descriptor-open-after-init", strf("%d simulated descriptor(s) still open after orc_init although no mapping made from them is alive", fs::open_unmapped_fds()));
   c.state(fnv(ist.trace));
+  { Layout l0; walk_codemem(l0); st.unaccounted_maps_after_init = unaccounted_mappings(l0); }
 
   struct CycleStat { size_t bytes, blocks; int regions, used, chunks; };
   std::vector<CycleStat> cstats;
